@@ -1121,9 +1121,15 @@ func scanOnce(seed int64) {
 
 func main() {
 	mode := flag.String("mode", "corr", "corr|free|scan")
+	site := flag.String("site", "legacy", "scan: dopen|readdir|gitignore|stat|fopen|extract, or legacy (walkcase.MemFS, every Open slow)")
+	smode := flag.String("scanmode", "tree", "scan: tree|paths")
 	o := hx.Parse()
 	if *mode == "scan" {
-		scanOnce(o.Seed)
+		if *site == "legacy" {
+			scanOnce(o.Seed)
+		} else {
+			scanSite(o.Seed, *site, *smode)
+		}
 		return
 	}
 	checkPools()
